@@ -71,7 +71,7 @@ def run(o, ctx, tier, seed, replay=None):
             o.violations.append({"case": c, "impl": a[:200], "why": why})
 
 
-register("C06", lean=["Khttp.Props.C06"], run=run,
+register("C06", lean=["Khttp.Props.C06", "Khttp.Props.C07BodySkeleton"], run=run,
          rule="BODY cases: payload lengths {0,1,2,3,5,8,17,100,4095,4096,4097,9000,random} x {fixed, chunked with random chunkings, mixed-case / zero-padded sizes, extensions, trailers} x "
               "{valid + trailing bytes, every kind of truncation point, single-byte corruption of a size digit or of the CRLF after chunk data} x random leftover|stream split x stream segmentations "
               "{all, 1-byte, random} x caller schedules {1, 2, 7, 1024, 4096, 8192, random} x {Read, BufRead, drop-drain}. distinct_nontrivial = all distinct case lines.",
